@@ -30,6 +30,7 @@ const (
 	e2eMeta  = 20600
 	e2eHTTP  = 20610
 	e2eBlock = 256 // [http] read-block-size of the server under test
+	e2eLimit = 3000 // [http] max-body-size of the server under test
 )
 
 var e2eBase = fmt.Sprintf("http://127.0.0.1:%d", e2eHTTP)
@@ -58,7 +59,11 @@ func startServer(bin, tmpl, work string) (*exec.Cmd, error) {
 	for k, v := range rep {
 		s = strings.ReplaceAll(s, "127.0.0.1:"+k, fmt.Sprintf("127.0.0.1:%d", v))
 	}
-	s = strings.Replace(s, "[http]\n", fmt.Sprintf("[http]\n  read-block-size = %d\n", e2eBlock), 1)
+	s = strings.ReplaceAll(s, "\r\n", "\n") // the template has CRLF line ends
+	s = strings.Replace(s, "[http]\n", fmt.Sprintf("[http]\n  read-block-size = %d\n  max-body-size = %d\n", e2eBlock, e2eLimit), 1)
+	if !strings.Contains(s, fmt.Sprintf("\n  read-block-size = %d\n  max-body-size = %d\n", e2eBlock, e2eLimit)) {
+		return nil, fmt.Errorf("config template has no [http] section to put read-block-size / max-body-size into")
+	}
 	s = strings.ReplaceAll(s, "flight-enabled = true", "flight-enabled = false")
 	s = strings.ReplaceAll(s, "store-enabled = true", "store-enabled = false")
 	conf := filepath.Join(work, "c06.conf")
@@ -383,6 +388,9 @@ func e2eMain(bin, tmpl, work string, n int) int {
 		return rc
 	}
 	if rc := e2eTsOverflow(len(pend)+extra, &extra); rc != 0 {
+		return rc
+	}
+	if rc := e2eFraming(r, len(pend)+extra, &extra); rc != 0 {
 		return rc
 	}
 	fmt.Printf("{\"e2e_done\":%d}\n", len(pend)+extra)
@@ -838,6 +846,104 @@ func e2eTsOverflow(base int, extra *int) int {
 			c.Oracle = append(c.Oracle, OracleFail{"C06-ts-overflow", fmt.Sprintf("timestamp %s (precision %s) is beyond int64 ns; answered %d without an error (no row visible)", tc.ts, tc.prec, st)})
 		}
 		gen.Emit(c)
+	}
+	return 0
+}
+
+
+// e2eFraming: the body framing on the running server (max-body-size 3000, read-block-size 256): chunked uploads below,
+// at and beyond the limit, gzip bodies (text below and beyond the limit), a declared length beyond the limit, an upload
+// that breaks off. Acknowledged: every line comes back from a query. Otherwise: what comes back are complete lines
+// of the body with the values written, from its beginning.
+func e2eFraming(r *gen.Rand, base int, extra *int) int {
+	type job struct {
+		m    string
+		want []string
+		c    *E2ECase
+	}
+	var jobs []job
+	addr := fmt.Sprintf("127.0.0.1:%d", e2eHTTP)
+	plans := []struct {
+		kind string
+		L    int
+	}{{"chunked", 1200}, {"chunked", e2eLimit - 1}, {"chunked", e2eLimit}, {"chunked", e2eLimit + 1}, {"chunked", e2eLimit + 2}, {"chunked", 2*e2eLimit + 17},
+		{"gzip-cl", 2500}, {"gzip-cl", 2*e2eLimit + 100}, {"gzip-chunked", e2eLimit + 1}, {"cl", e2eLimit}, {"cl", e2eLimit + 1},
+		{"chunked-abort", 2000}, {"gzip-broken", 2600}}
+	for i, pl := range plans {
+		m := fmt.Sprintf("fr%d", i)
+		body, want := sweepBody(m, pl.L, "\n", i%2 == 0, false)
+		if body == "" {
+			continue
+		}
+		raw := []byte(body)
+		var hdr []string
+		var wire [][]byte
+		abort := false
+		switch pl.kind {
+		case "cl":
+			hdr, wire = []string{fmt.Sprintf("Content-Length: %d", len(raw))}, [][]byte{raw}
+		case "chunked":
+			hdr, wire = []string{"Transfer-Encoding: chunked"}, chunkedWire(r, raw)
+		case "gzip-cl":
+			z := gz(raw)
+			hdr, wire = []string{"Content-Encoding: gzip", fmt.Sprintf("Content-Length: %d", len(z))}, [][]byte{z}
+		case "gzip-chunked":
+			hdr, wire = []string{"Content-Encoding: gzip", "Transfer-Encoding: chunked"}, chunkedWire(r, gz(raw))
+		case "chunked-abort":
+			k := len(raw)/2 + 7 // inside a line
+			wire = chunkedWire(r, raw[:k])
+			hdr, wire, abort = []string{"Transfer-Encoding: chunked"}, wire[:len(wire)-1], true
+		case "gzip-broken":
+			z := gz(raw)
+			z = z[:len(z)*2/3]
+			hdr, wire = []string{"Content-Encoding: gzip", fmt.Sprintf("Content-Length: %d", len(z))}, [][]byte{z}
+		}
+		st := doRaw(addr, "db=c06", hdr, wire, abort)
+		c := &E2ECase{E2E: base + *extra, Class: "framing", Sub: fmt.Sprintf("%s len=%d", pl.kind, pl.L), Text: body, Status: st, Oracle: []OracleFail{}}
+		*extra++
+		jobs = append(jobs, job{m, want, c})
+	}
+	time.Sleep(1200 * time.Millisecond)
+	for _, j := range jobs {
+		ack := j.c.Status >= 200 && j.c.Status < 300
+		var rows []map[string]interface{}
+		var raw string
+		var err error
+		for try := 0; try < 12; try++ {
+			rows, raw, err = rowsOf(j.m)
+			if err != nil {
+				fmt.Println("ERROR e2e: query", err, raw)
+				return 2
+			}
+			if !ack || len(rows) >= len(j.want) {
+				break
+			}
+			time.Sleep(250 * time.Millisecond)
+		}
+		if len(raw) > 500 {
+			raw = raw[:500]
+		}
+		j.c.Got = raw
+		sort.SliceStable(rows, func(a, b int) bool {
+			x, _ := cellInt(rows[a]["time"])
+			y, _ := cellInt(rows[b]["time"])
+			return x < y
+		})
+		if ack && len(rows) != len(j.want) {
+			j.c.Oracle = append(j.c.Oracle, OracleFail{"none", fmt.Sprintf("%d lines written and acknowledged (%d), %d rows returned", len(j.want), j.c.Status, len(rows))})
+		}
+		// every returned row must be a complete line of the body: time 1000+i, tag h as written, v = i
+		for _, row := range rows {
+			ts, _ := cellInt(row["time"])
+			i := int(ts - 1000)
+			h, _ := row["h"].(string)
+			v, vok := cellInt(row["v"])
+			if i < 0 || i >= len(j.want) || h != j.want[i] || !vok || v != int64(i) {
+				j.c.Oracle = append(j.c.Oracle, OracleFail{"none", fmt.Sprintf("answered %d; a row (time %d, h=%q, v=%v) is returned that no complete line of the body says", j.c.Status, ts, h, row["v"])})
+				break
+			}
+		}
+		gen.Emit(j.c)
 	}
 	return 0
 }
